@@ -21,8 +21,13 @@ for sid in ids:
                            '--detach', wt, 'HEAD'])
     t0 = time.time()
     try:
-        subprocess.check_call(['git', '-C', wt, 'apply',
-                               os.path.join(d, 'patch.diff')])
+        if subprocess.call(['git', '-C', wt, 'apply',
+                            os.path.join(d, 'patch.diff')]) != 0:
+            results[sid] = {'exit': None, 'violations': 0, 'sigs': [],
+                            'caught': False, 'stale_patch': True,
+                            'wall_s': 0}
+            print('%s: PATCH DOES NOT APPLY to the current tree' % sid)
+            continue
         env = dict(os.environ)
         env['VERIF_REPO'] = wt
         scratch = wt + '-out'
